@@ -9,7 +9,7 @@ LEVEL = "proof"
 MANIFEST = {
     "technique": "Coq proof over a hand-written Gallina model of aac.AudioSpecificConfig / aac.ADTSHeader codecs (bit lists) "
                  "+ complete enumeration of the finite domain on both sides + differential correspondence (extracted OCaml vs Go)",
-    "level_text": "Theorems (coq/c18/C18Theorems.v, 23, all closed under the global context): DecodeAudioSpecificConfig(Encode(c)) = c for every canonical configuration "
+    "level_text": "Theorems (coq/c18/C18Theorems.v, 27, all closed under the global context): DecodeAudioSpecificConfig(Encode(c)) = c for every canonical configuration "
                   "(object types 2/5/29, 16 channel configurations, every frequency 0..2^24-1 incl. the 13 table values; general "
                   "bit-level proof) and again by complete enumeration of the table part inside Coq; the two frequency tables are "
                   "mutually inverse; DecodeADTSHeader(Encode(h)) = (h, 0) for all profiles 1..4, 16 frequency indices, 8 channel "
